@@ -452,8 +452,14 @@ fn strategy(_t: Tier) -> BoxedStrategy<Case> {
         prop_oneof![2 => gen::fl(0.3, 12.0), 2 => gen::fl(12.0, 60.0)],
         gen::logu(-10.0, -2.0),
         prop_oneof![1 => Just(None), 1 => gen::logu(-0.5, 0.5).prop_map(Some), 1 => gen::logu(-4.0, -2.0).prop_map(Some)],
+        // one case in ten on a dyadic grid with a fixed step: start k/4, step 2^-j, whole number of steps - every time
+        // addition is exact, so boundary tests such as `time + dt >= end` meet exact equality
+        prop_oneof![9 => Just(None), 1 => (-8i32..=8, 2u32..=7, 1u32..=48).prop_map(Some)],
     )
-        .prop_map(|(solver, (problem, y0), t0, dt_max, min_exp, fixed, k, tol, recentre)| Case { solver, problem, y0, t0, dt_max, min_exp, fixed, k, tol, recentre })
+        .prop_map(|(solver, (problem, y0), t0, dt_max, min_exp, fixed, k, tol, recentre, dyadic)| match dyadic {
+            None => Case { solver, problem, y0, t0, dt_max, min_exp, fixed, k, tol, recentre },
+            Some((q, j, n)) => Case { solver, problem, y0, t0: q as f64 * 0.25, dt_max: 0.5f64.powi(j as i32), min_exp, fixed: true, k: n as f64, tol, recentre: None },
+        })
         .boxed()
 }
 
@@ -469,7 +475,7 @@ pub fn run(opts: &Opts) -> i32 {
     spec.cases = opts.tier.pick(30_000, 800_000);
     spec.essential = vec![("has-startup", 0.2), ("has-multistep", 0.2), ("must-accept", 0.02), ("must-reject", 0.01), ("fixed-step", 0.15), ("rk45", 0.08), ("rk23", 0.08), ("euler", 0.08)];
     spec.max_discard_frac = 0.1;
-    spec.rule = "generated: seven solvers x generic non-linear non-autonomous right-hand sides f_i = a sin(w t + y_{i+1}) - b y_i + g y_{i+1} cos(v t)/(1+y_i^2) with random coefficients (dimension 1-4) x t0 in [-2,2] x dt_max 10^[-2.5,-0.52] x dt_min = dt_max 10^-[0.5,6] (a quarter of the cases with dt_min = dt_max: fixed step) x tolerance 10^[-10,-2] (optionally recentred on, or placed far above, the reference estimate of the first trial step) x interval 0.3-60 first trial steps. Oracle: every yielded point is re-derived from the previous yielded points with harness-side reference formulas: Fehlberg 4(5) / Bogacki-Shampine 3(2) step with embedded estimate <= tol; classical RK4 step or AB-predict/AM-correct update (PEC or PECE derivative history, estimate 19/270 |c-p|/h <= tol) for Adams; RK4 step or residual of the BDF formula at the new time <= 4 tol for BDF; y + dt f for Euler; fixed-step configurations: all estimates <= tol/100 => Ok with all gaps equal to the step, first estimate > 2 tol => first step not accepted (RK). Non-trivial = paths containing both start-up and multistep points (multistep solvers), >= 3 points with unequal gaps or fixed step (RK), >= 3 points (Euler). Distinct = distinct case JSON.".into();
+    spec.rule = "generated: seven solvers x generic non-linear non-autonomous right-hand sides f_i = a sin(w t + y_{i+1}) - b y_i + g y_{i+1} cos(v t)/(1+y_i^2) with random coefficients (dimension 1-4) x t0 in [-2,2] x dt_max 10^[-2.5,-0.52] (one case in ten on a dyadic grid with a fixed step: start k/4, step 2^-j, whole number of steps) x dt_min = dt_max 10^-[0.5,6] (a quarter of the cases with dt_min = dt_max: fixed step) x tolerance 10^[-10,-2] (optionally recentred on, or placed far above, the reference estimate of the first trial step) x interval 0.3-60 first trial steps. Oracle: every yielded point is re-derived from the previous yielded points with harness-side reference formulas: Fehlberg 4(5) / Bogacki-Shampine 3(2) step with embedded estimate <= tol; classical RK4 step or AB-predict/AM-correct update (PEC or PECE derivative history, estimate 19/270 |c-p|/h <= tol) for Adams; RK4 step or residual of the BDF formula at the new time <= 4 tol for BDF; y + dt f for Euler; fixed-step configurations: all estimates <= tol/100 => Ok with all gaps equal to the step, first estimate > 2 tol => first step not accepted (RK). Non-trivial = paths containing both start-up and multistep points (multistep solvers), >= 3 points with unequal gaps or fixed step (RK), >= 3 points (Euler). Distinct = distinct case JSON.".into();
     spec.max_shrink_iters = 500;
     run_spec(spec, opts)
 }
